@@ -1229,6 +1229,11 @@ impl InstrFormat for TimelineFormat06 {
     }
 
     fn write_instr(&self, f: &mut BinWriter, emitter: &dyn Emitter, instr: &RawInstr) -> WriteResult {
+        if (instr.time, instr.extra_arg.unwrap_or(0)) == (-1, 4) {
+            return Err(emitter.as_sized().emit(error!(
+                "a timeline instruction with time -1 and arg0 4 cannot be told apart from the end-of-script marker",
+            )));
+        }
         f.write_i16(llir::fit_instr_field(emitter, "time", instr.time)?)?;
         f.write_i16(instr.extra_arg.unwrap_or(0) as _)?;
         f.write_u16(instr.opcode)?;
